@@ -144,6 +144,8 @@ def prun(d, props=None, workers='4'):
         for p in props:
             t0 = time.time()
             rc, out = sh(f'./check {p} --tier quick', vf, timeout=7200, env={'BNV_REPO': wt, 'BNV_WORKERS': workers})
+            os.makedirs(os.path.join(VERIF, 'build', 'logs'), exist_ok=True)
+            open(os.path.join(VERIF, 'build', 'logs', f'prunfull_{name}_{p}.log'), 'w').write(out)
             lines = [l for l in out.split('\n') if l.startswith(('VIOLATION', 'KNOWN-FINDING', '[' + p)) or 'UNDECIDED' in l]
             viol = [l for l in lines if l.startswith('VIOLATION')]
             replays = []
@@ -164,6 +166,8 @@ def prun(d, props=None, workers='4'):
                 if 'UNDECIDED' in l:
                     print('   ', l[:240])
     finally:
+        # results keyed by the generated text itself are valid for any tree: share them back
+        sh(f'cp -n {vf}/build/cache/by_content/* {VERIF}/build/cache/by_content/ 2>/dev/null', '/')
         sh(f'git worktree remove --force {wt}', '/repo')
         shutil.rmtree(base, ignore_errors=True)
     json.dump(meta, open(os.path.join(d, 'meta.json'), 'w'), indent=1)
